@@ -34,6 +34,10 @@ import numpy as np
 from . import geomref
 
 EPS = 2.220446049250313e-16
+# relative tolerance of the finite-difference based laws (accelerations, force, torque); see World.kin(): truncation and
+# round-off of the central difference are both ~2e-11 relative; worst error observed on the unchanged tree over
+# 3 x 12000 thorough models: 1.7e-9 -> ~100x
+FD_TOL = 2e-7
 
 # documented datatype per element (mjtDataType): used for the cutoff law
 AXIS_KINDS = ('framexaxis', 'frameyaxis', 'framezaxis', 'normal')
@@ -227,8 +231,8 @@ class World:
     X = np.array(d.xpos, dtype=float)
     V, W = self._body_vel(d)
     # step of the central difference: the relative truncation error is (h w)^2 / 6 with w the largest angular velocity
-    # of a body (deep chains add up joint rates), the relative round-off eps / (h w): h w = 1e-4 balances both below 2e-9
-    h = self.h = 1e-4 / (1.0 + float(np.max(np.linalg.norm(W, axis=1))) if self.nbody > 1 else 0.0)
+    # of a body (deep chains add up joint rates), the relative round-off eps / (h w): h w <= 1e-5 keeps both near 2e-11
+    h = self.h = 1e-5 / (1.0 + float(np.max(np.linalg.norm(W, axis=1))))
     A = np.zeros_like(V)
     AL = np.zeros_like(W)
     if self.nv:
@@ -652,6 +656,9 @@ def collision_expect(w, i, kind):
   if len(pairs) > 1 and abs(pairs[1][0] - pairs[0][0]) < 10 * tol_geo and pairs[0][0] < cutoff + 10 * tol_geo:
     fragile = True
   dist = best[0] if detected else cutoff
+  # pairs without a closed form: the reference is the engine's own convex solver called with another distmax; its
+  # iterative result (GJK/EPA on curved shapes) moves by ~1e-5 with distmax -> 10x looser comparison for those
+  tol_cmp = tol_geo if (best is None or best[3] == 'closed') else 10 * tol_geo
   if kind != 'distance' and detected and abs(best[0]) < 100 * tol_geo:
     fragile = True        # touching: the direction of the (zero-length) shortest segment is undefined
   note = 'fragile' if fragile else ('detected:' + best[3] if detected else 'undetected')
@@ -660,7 +667,7 @@ def collision_expect(w, i, kind):
     want = np.array([dist])
     if cutoff > 0:
       want = np.clip(want, -cutoff, cutoff)
-    return Result('tol' if not fragile else 'none', want=want, tol=tol_geo * (1 + abs(dist)), level=level, cls='geom',
+    return Result('tol' if not fragile else 'none', want=want, tol=tol_cmp * (1 + abs(dist)), level=level, cls='geom',
                   note=note)
 
   def check(got):
@@ -686,7 +693,7 @@ def collision_expect(w, i, kind):
       # axis gets a witness inside the capsule -, EPA tolerance); that is C13/C15 territory
       if dist > 0 and (e1 > tol_geo * 10 * sc or e2 > tol_geo * 10 * sc):
         return False, 'fromto end points not on the surfaces of geom1/geom2: sdf1(from)=%g sdf2(to)=%g' % (e1, e2)
-      if abs(sep - abs(dist)) > tol_geo * 10 * sc:
+      if abs(sep - abs(dist)) > tol_cmp * 10 * sc:
         return False, '|to-from|=%.12g but |signed distance|=%.12g' % (sep, abs(dist))
       return True, ''
     # normal: unit vector from the surface of geom1 to the surface of geom2
@@ -1019,7 +1026,7 @@ def expect(w, i, spec=None):
     a, al = w.point_acc(b, p)
     sc = 1 + w.acc_scale(b, p)
     static = int(m.body_dofnum[int(m.body_weldid[b])]) == 0
-    return Result('tol', want=(a - g) if kind == 'framelinacc' else al, tol=2e-6 * sc, cls='fd',
+    return Result('tol', want=(a - g) if kind == 'framelinacc' else al, tol=FD_TOL * sc, cls='fd',
                   note='static-body' if static else '')
 
   if kind in ('velocimeter', 'gyro', 'accelerometer', 'magnetometer', 'force', 'torque', 'touch'):
@@ -1034,7 +1041,7 @@ def expect(w, i, spec=None):
     if kind == 'accelerometer':
       a, _ = w.point_acc(b, p)
       static = int(m.body_dofnum[int(m.body_weldid[b])]) == 0
-      return Result('tol', want=R.T @ (a - g), tol=2e-6 * (1 + w.acc_scale(b, p)), cls='fd',
+      return Result('tol', want=R.T @ (a - g), tol=FD_TOL * (1 + w.acc_scale(b, p)), cls='fd',
                     note='static-body' if static else '')
     if kind in ('force', 'torque'):
       if b == 0:
@@ -1047,8 +1054,8 @@ def expect(w, i, spec=None):
             return Result('none', level='isolation', note='ft-connect/weld')
       F, T, sF, sT = free_body_wrench(w, b, p)
       if kind == 'force':
-        return Result('tol', want=R.T @ F, tol=2e-6 * (1 + sF), cls='fd')
-      return Result('tol', want=R.T @ T, tol=2e-6 * (1 + sT), cls='fd')
+        return Result('tol', want=R.T @ F, tol=FD_TOL * (1 + sF), cls='fd')
+      return Result('tol', want=R.T @ T, tol=FD_TOL * (1 + sT), cls='fd')
     # touch
     typ = SITE_TYPES[int(m.site_type[oid])]
     size = np.array(m.site_size[oid])
